@@ -27,7 +27,18 @@ META = {
             "delete_transaction_metadata and the revision trigger never touch another ledger's rows); and the refutations projection_effective_volumes_null "
             "(design 6 #24), projection_self_posting_breaks_volumes (new), projection_timestamp_offset_dropped (#25), "
             "get_account_balance_before_witness (#22, latent); the same comparison runs executably on every generated history of the run and on "
-            "an exhaustive enumeration to depth 3 (quick) / 4 (thorough).  The full projection_refines_replay (induction over arbitrary log "
+            "an exhaustive enumeration to depth 3 (quick) / 4 (thorough).  FILTERS (quantifier 'every point-in-time and filter'): "
+            "filter_where_means_filter — for every listing, PIT flag, ledger and EVERY filter expression that renders, the tokens of the where text "
+            "(Model.SqlText.exprPieces, the model of libs/query set/not/keyValue.Build + the ContextFn leaf renderers) are read by boolParse "
+            "(parentheses, NOT > AND > OR) as a tree whose value under every assignment of the atomic conditions is the intended meaning sem of "
+            "the expression ($not negation, $and conjunction, $or disjunction, account-on-transactions = source OR destination, wildcard address = "
+            "length AND segments), by induction over exprPieces/setTail, all depths and list lengths; filter_text_wraps, filter_attached_as_conjunct "
+            "(bun's `(c1) AND … AND (filter)` reads as the conjunction), leaf_text_means_leaf, not_needs_its_parentheses (the unparenthesised "
+            "variant reads differently); tied to the REAL SQL by a filter-structure lattice ($not over every kind of leaf, $not over $and/$or of >= 2, "
+            "nestings 3 deep, every sub-expression captured under the same parameters) with an independent Python oracle (checks/c04filter.py: "
+            "precedence-aware skeleton of the captured WHERE clause; attachment to the unfiltered statement's conjuncts; skeleton($not F) == NOT skeleton(F), "
+            "$and/$or likewise, as truth tables) and the Lean driver area filtersem (model fragment == real fragment; Lean reading == Python reading of the "
+            "real fragment and of the real WHERE clause; reading == meaning).  The full projection_refines_replay (induction over arbitrary log "
             "sequences through the generated definitions) and reads_equal_replay (what the Go query builders compute) are NOT proved.",
     "note": "Stage 2 rests on Model/Store/Sql.lean, my reading of PostgreSQL (three-valued logic, select-into assigning NULLs when no row is "
             "returned, on-conflict, row-level after triggers, jsonb operators, ::timestamp dropping the zone) - TRUSTED, nothing can execute SQL here; "
@@ -35,7 +46,10 @@ META = {
             "ledger predicate is a syntactic obligation on captured text, what the queries COMPUTE is not compared with replay here.  Trusted: Lean "
             "kernel (axioms propext/Classical.choice/Quot.sound at most); Store.replay as the reading of 'the replay of the log'; the Go harness and "
             "its generator; bun's rendering as captured; the little SQL block parser of checks/c04sql.py (fails loudly on shapes it does not know) "
-            "and its rule that a row joined by its foreign key <t>_seq to the primary key seq of a ledger-restricted row is itself restricted.",
+            "and its rule that a row joined by its foreign key <t>_seq to the primary key seq of a ledger-restricted row is itself restricted; "
+            "FILTERS: the boolean reading of NOT / AND / OR precedence (Lean boolParse and, independently, checks/c04filter.py) is my model of "
+            "PostgreSQL's grammar; atomic conditions are opaque (what `sources @> '[\"bank\"]'` selects is not modelled); the theorem speaks about the "
+            "scanner's tokens piece by piece, that they are the tokens of the text scanned as a whole is checked by the driver on every captured case, not proved.",
     "technique": "Lean 4 proofs by induction over the log sequence / the interleaving + differential correspondence with the in-memory store + "
                  "structural obligation on captured SQL text (+ stage 2: PL/pgSQL-to-Lean translation regenerated on every run)",
     "design_ref": "5 (C04), 3.7, 6 #16 #22 #24 #25, 8, appendix D",
@@ -448,7 +462,9 @@ def check_filter_structure(ctx, inputs, impl, have_driver):
                 ctx.cov.setdefault("disagreements", {})["filtersem:" + k] = bad[k]
                 ctx.cov.setdefault("compared", {})["filtersem:" + k] = tie["cases"]
     n = max(1, st["filter-cases"])
+    xcheck = reader_crosscheck(ctx, sorted({r["where"] for r in rows}), 3000 if ctx.quick else 100000) if have_driver and not ctx.replay_file else {}
     return {
+        "reader_crosscheck (Lean boolParse vs Python skeleton)": xcheck,
         "filter_cases": st["filter-cases"], "attachment_checked": st["attachment-checked"], "leaf_cases": st["leaf-cases"],
         "compositions_checked": st["compositions-checked"], "compositions_by_connective": dict(sorted(conn_stats.items())),
         "composites_without_captured_parts": st["composite-without-captured-parts"],
@@ -456,6 +472,43 @@ def check_filter_structure(ctx, inputs, impl, have_driver):
         "shape_rates (share of filter cases; a case can be in several classes)": {k: round(v / n, 3) for k, v in sorted(rates.items())},
         "shape_counts": dict(sorted(rates.items())),
     }
+
+
+READER_SOUP = ["a", "b", "c.d", "'x or y'", "'not'", "(", ")", "(", ")", "not", "NOT", "and", "AND", "or", "Or", "=", "<", "1", "1 = 1", "@>",
+               "between", "case", "is", "null", "select", "(select 1 where p and q)", "f(x and y)", "::jsonpath", "-- and\n", "/* or */"]
+
+
+def reader_crosscheck(ctx, real_texts, n):
+    """the two readings of SQL precedence — lean/Model/Store/FilterSem.lean boolParse (cut at the connectives of depth 0) and
+    checks/c04filter.py skeleton (recursive descent) — on the captured WHERE clauses and on random connective / parenthesis soup"""
+    import random
+    rnd = random.Random(ctx.seed * 104729 + 4)
+    rows = [{"id": k, "sql": t} for k, t in enumerate(real_texts)]
+    for _ in range(n):
+        rows.append({"id": len(rows), "sql": " ".join(rnd.choice(READER_SOUP) for _ in range(rnd.randint(1, 12)))})
+    inf, outf = ctx.path("boolparse.in.jsonl"), ctx.path("boolparse.model.jsonl")
+    write_jsonl(inf, rows)
+    p = run_driver("boolparse", inf, outf)
+    if p.returncode != 0:
+        ctx.l2_broken.append({"stream": "boolparse-driver", "detail": (p.stdout + p.stderr)[-2000:]})
+        return {}
+    model = {r["id"]: r["out"] for r in read_jsonl(outf)}
+    bad, read, refused = 0, 0, 0
+    for r in rows:
+        try:
+            py = cf.flat(cf.skeleton_sql(r["sql"]))
+            read += 1
+        except cf.SkeletonError:
+            py = None
+            refused += 1
+        m = model.get(r["id"], {})
+        if "tree" not in m or canon(m["tree"]) != canon(py):
+            bad += 1
+            if bad <= 3:
+                ctx.l2_broken.append({"stream": "boolparse:lean-vs-python", "id": r["id"], "input": r, "impl": py, "model": m})
+    ctx.cov.setdefault("compared", {})["boolparse:lean-vs-python"] = len(rows)
+    ctx.cov.setdefault("disagreements", {})["boolparse:lean-vs-python"] = bad
+    return {"captured_where_clauses": len(real_texts), "random_soup": n, "read_by_both": read - bad if bad <= read else 0, "refused_by_python": refused}
 
 
 def check_schema_functions(ctx, ledger_funcs, fns):
@@ -676,6 +729,9 @@ def run(ctx):
         "checks/c04sql.py: block parser for the captured SELECT/WITH statements; rule: ledger = L, or foreign-key/primary-key join (accounts_seq / transactions_seq / seq) to a restricted row",
         "checks/c20.py tokenize(): PostgreSQL tokenizer shared with C20",
         "bun 1.1.16 rendering as captured; SQL is never executed (no PostgreSQL in the sandbox)",
+        "FILTERS: lean/Model/Store/FilterSem.lean boolParse and checks/c04filter.py skeleton(): two independent readings of SQL operator precedence "
+        "(parentheses, NOT > AND > OR, everything else an opaque atom; `is not null` / `not in` / BETWEEN / CASE at depth 0 are refused) - my model of "
+        "PostgreSQL's gram.y for the three connectives; Model.SqlText.lex (shared with C20) as the scanner; leafSkel as the intended meaning of a matcher",
     ]
     ctx.cov["trusted_base"] += [
         "STAGE 2: lean/Model/Store/Sql.lean (meaning of the SQL subset: tables as row lists in seq order, NULL and three-valued logic, select-into "
@@ -740,7 +796,10 @@ def run(ctx):
             "filter_structure": fstruct,
             "lattice": "method x PIT(absent, zero instant, a date) x expandVolumes x expandEffectiveVolumes x filters "
                        "(accounts: address exact/segments, metadata[k], balance[asset], balance, and/or/not; transactions: reference, timestamp, "
-                       "account, source, destination (exact/segments), metadata[k], or/and/not; aggregated balances: address, metadata[k]; logs: date)",
+                       "account, source, destination (exact/segments), metadata[k], or/and/not; aggregated balances: address, metadata[k]; logs: date) "
+                       "+ filter-structure lattice (harness rsStructureFilters): per listing every kind of matcher F, $not F, $not $not F, $and[F], $or[F], "
+                       "$not $and[F,G], $not $or[F,G], $and[F,G,H], $not $or[F,G,H], four nestings 3 deep, empty sets, and EVERY sub-expression of these, "
+                       "x list and count methods x PIT(absent, a date) x expand(none, both); the seed picks which matchers are paired (thorough: all offsets)",
         }
         want = {"GetAccountsWithVolumes", "CountAccounts", "GetAccountWithVolumes", "GetAccount", "GetAggregatedBalances", "GetBalance",
                 "GetTransactions", "CountTransactions", "GetTransactionWithVolumes", "GetTransaction", "GetTransactionByReference",
@@ -766,6 +825,8 @@ def run(ctx):
         "1a/1b replay + laws": "proved (Lean, unbounded): see coverage.theorems",
         "1c in-memory store = replay": "differential (Lean model) + independent Python fold (L3)",
         "1d ledger predicate": "structural obligation on captured SQL text of every ledgerstore read method, on InsertLogs' COPY rows and on the schema's `language sql` read functions",
+        "1e filters": "proved (Lean, every expression): the where text built for a filter reads, under SQL precedence, as the filter's meaning; tied to the captured SQL of the "
+                      "real store by the filter-structure lattice: attachment + composition oracle (Python) + Lean reading of the same text (driver area filtersem)",
         "2e translation": "regenerated on every run (extract/plpgsql -> Generated/Schema.lean); a construct outside the grammar stops the check",
         "2f projection vs replay": "kernel-checked on all histories of <= 2 entries + one rich example (partial theorems); executable comparison on the "
                                    "generated histories of the run and on the enumeration to depth 3/4; clauses (i),(ii) REFUTED on two shapes (findings), (iii)-(v) no counterexample; "
